@@ -35,6 +35,94 @@ pub fn run(op: &str, a: &[&str]) -> Option<String> {
             for i in 0..k { acc = acc + rd_f64(a[1 + i]); }
             Some(wr_tf(acc))
         }
+        // formatting: `fmt <d|e|E> <plus 0|1> <prec -1|p> hi lo`  and the renderer of a single f64: `render <d|e|E> <plus> <prec> x`
+        "fmt" => {
+            if a.len() < 5 { return None; }
+            let t = rd_tf(a[3], a[4]);
+            let p: i64 = a[2].parse().ok()?;
+            Some(format!("\"{}\"", fmt_any(a[0], a[1] == "1", p, Val::T(t))))
+        }
+        "render" => {
+            if a.len() < 4 { return None; }
+            let p: i64 = a[2].parse().ok()?;
+            let x = rd_f64(a[3]);
+            let s = fmt_any(a[0], a[1] == "1", p, Val::F(x));
+            // parse-back of the numeral (f64 parsing)
+            let back = s.parse::<f64>().map(wr_f64).unwrap_or_else(|_| "unparsable".into());
+            Some(format!("\"{}\" {}", s, back))
+        }
+        _ => serde_ops(op, a),
+    }
+}
+
+enum Val { T(TwoFloat), F(f64) }
+
+fn fmt_any(tr: &str, plus: bool, prec: i64, v: Val) -> String {
+    macro_rules! go {
+        ($x:expr) => {
+            match (tr, plus, prec >= 0) {
+                ("d", false, false) => format!("{}", $x),
+                ("d", true, false) => format!("{:+}", $x),
+                ("d", false, true) => format!("{:.*}", prec as usize, $x),
+                ("d", true, true) => format!("{:+.*}", prec as usize, $x),
+                ("e", false, false) => format!("{:e}", $x),
+                ("e", true, false) => format!("{:+e}", $x),
+                ("e", false, true) => format!("{:.*e}", prec as usize, $x),
+                ("e", true, true) => format!("{:+.*e}", prec as usize, $x),
+                ("E", false, false) => format!("{:E}", $x),
+                ("E", true, false) => format!("{:+E}", $x),
+                ("E", false, true) => format!("{:.*E}", prec as usize, $x),
+                (_, _, _) => format!("{:+.*E}", prec as usize, $x),
+            }
+        };
+    }
+    match v {
+        Val::T(t) => go!(t),
+        Val::F(x) => go!(x),
+    }
+}
+
+#[cfg(not(feature = "serde"))]
+fn serde_ops(_op: &str, _a: &[&str]) -> Option<String> { None }
+
+#[cfg(feature = "serde")]
+fn serde_ops(op: &str, a: &[&str]) -> Option<String> {
+    use serde::de::value::{Error as VErr, MapDeserializer, SeqDeserializer};
+    use serde::de::IntoDeserializer;
+    use serde::Deserialize;
+    fn kind(e: &VErr) -> &'static str {
+        let m = e.to_string();
+        if m.starts_with("invalid length") { "Err(invalid_length)" }
+        else if m.starts_with("duplicate field") { "Err(duplicate_field)" }
+        else if m.starts_with("missing field") { "Err(missing_field)" }
+        else if m.starts_with("unknown field") { "Err(unknown_field)" }
+        else if m.starts_with("invalid value") { "Err(invalid_value)" }
+        else { "Err(other)" }
+    }
+    match op {
+        // `de_seq k x1 .. xk`
+        "de_seq" => {
+            let k: usize = a.get(0)?.parse().ok()?;
+            if a.len() < 1 + k { return None; }
+            let v: Vec<f64> = (0..k).map(|i| rd_f64(a[1 + i])).collect();
+            let d: SeqDeserializer<_, VErr> = SeqDeserializer::new(v.into_iter());
+            Some(match TwoFloat::deserialize(d) { Ok(t) => format!("Ok({})", wr_tf(t)), Err(e) => kind(&e).to_string() })
+        }
+        // `de_map k key1 x1 .. keyk xk`
+        "de_map" => {
+            let k: usize = a.get(0)?.parse().ok()?;
+            if a.len() < 1 + 2 * k { return None; }
+            let v: Vec<(String, f64)> = (0..k).map(|i| (a[1 + 2 * i].to_string(), rd_f64(a[2 + 2 * i]))).collect();
+            let d: MapDeserializer<_, VErr> = MapDeserializer::new(v.into_iter());
+            Some(match TwoFloat::deserialize(d) { Ok(t) => format!("Ok({})", wr_tf(t)), Err(e) => kind(&e).to_string() })
+        }
+        // `ser hi lo` : what the Serialize impl emits, recorded by a minimal Serializer
+        "ser" => {
+            if a.len() < 2 { return None; }
+            let t = rd_tf(a[0], a[1]);
+            Some(crate::recser::record(&t))
+        }
         _ => None,
     }
 }
+
